@@ -919,6 +919,9 @@ func runC18(ctx *WorkCtx, idx int) {
 
 func c18Block(d *Driver, plan *c18Plan, kind string, evLeft *int) *BlockRes {
 	s, R, g := d.S, d.R, d.G
+	if R.Intn(35) == 0 {
+		s.Restart() // the absence windows and jail marks must survive a process restart (lead: added after seed C18-m1)
+	}
 	req := d.NextReq()
 	h := req.Height
 	e := s.Post
@@ -956,6 +959,17 @@ func c18Block(d *Driver, plan *c18Plan, kind string, evLeft *int) *BlockRes {
 			for _, v := range e.Validators {
 				if v.PubKey != plan.safe && !plan.busyAfter(v.PubKey, h) && R.Intn(30) == 0 {
 					plan.pattern(R, v.PubKey, h+2, R.Intn(8))
+				}
+			}
+		}
+		// evidence that arrives exactly in the block in which an unbonding fund from that validator matures
+		// (lead: added after seed C18-m2; the fund must still be slashed before it is paid out)
+		if *evLeft > 1 && (kind == "byzantine" || kind == "mixed") {
+			for _, ff := range e.FrozenFunds {
+				if int64(ff.Height) == h && ff.CandidateKey != nil && listed[*ff.CandidateKey] && *ff.CandidateKey != plan.safe && R.Intn(2) == 0 {
+					*evLeft--
+					req.Byzantine = append(req.Byzantine, TmAddrOf(*ff.CandidateKey))
+					break
 				}
 			}
 		}
